@@ -245,6 +245,7 @@ mut("P19r", "conn.go", "	line, err := c.text.R.ReadString('\\n')\n	if err != nil
 mut("P20r", "conn.go", "	if c.server.MaxLineLength > 0 && len(line) > c.server.MaxLineLength {\n		// Read ahead while the limit was lifted for a BDAT chunk.\n		return \"\", ErrTooLongLine\n	}\n", "", ["C19"], "a-line-handed-to-the-command-loop-is-within-the-limit", note="regression: lines read ahead behind a chunk escape the limit")
 mut("P21r", "conn.go", "	c.locker.Lock()\n	if c.session != nil {\n		c.session.Logout()\n		c.session = nil\n	}\n	c.locker.Unlock()\n	c.helo = \"\"", "	if session := c.Session(); session != nil {\n		session.Logout()\n		c.setSession(nil)\n	}\n	c.helo = \"\"", ["C08", "C20"], "holds:Conn.locker@Session.Logout", note="regression: STARTTLS logs out outside the critical section")
 mut("M112", "conn.go", "func (c *Conn) reset() {\n	c.locker.Lock()\n	defer c.locker.Unlock()\n\n	if c.bdatPipe != nil {", "func (c *Conn) reset() {\n	if c.bdatPipe != nil {", ["C20"], "(*Conn).reset/holds", note="reset no longer takes the connection lock")
+mut("M113", "server.go", "	s.locker.Lock()\n	s.listeners = append(s.listeners, l)\n	s.locker.Unlock()\n\n	var tempDelay", "	var tempDelay", ["C20"], "the-listener-stays-registered", note="Serve no longer registers its listener: Close/Shutdown cannot stop it (operator mutant found by tools/automut.py)")
 # ---------------------------------------------------------------- client.go
 mut("M111", "client.go", "	if _, ok := c.ext[\"SIZE\"]; ok && opts != nil && opts.Size != 0 {", "	if _, ok := c.ext[\"SIZE\"]; ok && opts != nil && opts.Size > 1 {", ["C14"], "every-requested-and-offered-option-is-rendered", note="SIZE=1 is not rendered")
 mut("M104", "client.go", "		if resp == nil {\n			break\n		}\n		resp64 = make([]byte, encoding.EncodedLen(len(resp)))", "		if len(resp) == 0 {\n			break\n		}\n		resp64 = make([]byte, encoding.EncodedLen(len(resp)))", ["C09"], "success-means-the-server-said-235", note="client stops the AUTH exchange on an empty (non-nil) response and reports success")
